@@ -16,8 +16,8 @@ RULE = (
 )
 ASSUMPTIONS = ["for pre-computed distances the unlabeled rows follow the labeled rows in the matrix (the only layout the API can express)"]
 BUDGET = {
-    "quick": {"examples": 2000, "shards": 8, "min_nontrivial": 300},
-    "thorough": {"examples": 40000, "shards": 16, "min_nontrivial": 5000, "max_wall": 3000},
+    "quick": {"examples": 6400, "shards": 16, "min_nontrivial": 300},
+    "thorough": {"examples": 160000, "shards": 16, "min_nontrivial": 5000, "max_wall": 3000},
 }
 
 
